@@ -65,6 +65,13 @@ def tasks(tier, seed):
                                     # the handlers installed as attributes after construction (app.on_open = f) instead of constructor arguments
                                     ts.append({"kind": "seq", "seq": list(seq), "term": term, "disp": disp, "onrec": onrec, "interval": interval, "ping": ping,
                                                "assign_after": True, "bound": 0, "name": "%s|%s/%s/rec=%s/i=%d/handlers-assigned-later" % (",".join(seq), term, disp, onrec, interval)})
+    # a handshake rejected with statuses of every class (registered or not), with / without a reason phrase, with a body: a failed attempt like any other
+    for code in (200, 204, 400, 401, 403, 404, 408, 426, 429, 499, 500, 502, 503, 520, 599, 600, 999):
+        for how in ("", ":noreason", ":body"):
+            for seq in (("hs:%d%s" % (code, how),), ("eof", "hs:%d%s" % (code, how))):
+                for disp in ("builtin", "external"):
+                    ts.append({"kind": "seq", "seq": list(seq), "term": "server-close", "disp": disp, "onrec": True, "interval": 1, "ping": False, "bound": 0,
+                               "name": "%s|server-close/%s/rec=True/i=1/ping=False" % (",".join(seq), disp)})
     # the server's close frame with every status it may carry (1000-1003, 1007-1014, 3000-4999), bare and with a reason: no further attempt
     for code in (1001, 1002, 1003, 1007, 1008, 1009, 1010, 1011, 1012, 1013, 1014, 3000, 3999, 4000, 4999):
         for reason in ("", ":restarting \u2713"):
@@ -161,6 +168,9 @@ def peer_factory(kind, idx, ping):
         return "refused"
     if kind == "hs404":
         return lambda: tnet.ServerPeer(hs="status:404")
+    if kind.startswith("hs:"):
+        # hs:<code>[:noreason|:body] - a handshake rejected with any status, with / without reason phrase or body
+        return lambda: tnet.ServerPeer(hs="status:" + kind[3:])
     if kind == "eof":
         return lambda: tnet.ServerPeer(script=[(1.0, "data", msg), (2.0, "eof", b"")], on_ping=on_ping)
     if kind == "eof-midframe":
@@ -304,7 +314,7 @@ class Harness:
         t = 0.0
         approx = []
         for i, k in enumerate(kinds[:-1]):
-            if k in ("refused", "hs404"):
+            if k in ("refused", "hs404") or k.startswith("hs:"):
                 det = t
             elif k in ("eof", "reset", "eof-midframe", "eof-midmessage"):
                 det = t + 2.0
@@ -360,7 +370,7 @@ class Harness:
         elif len(closes) != 1 or cbs[-1][1] != "on_close":
             raise V("on-close", "on_close called %d times / last callback %s" % (len(closes), cbs[-1][1] if cbs else None), count=len(closes))
         if d["kind"] != "closer":
-            est = [i for i, k in enumerate(kinds) if k not in ("refused", "hs404")]
+            est = [i for i, k in enumerate(kinds) if k not in ("refused", "hs404") and not k.startswith("hs:")]
             want = []
             for n_, i in enumerate(est):
                 opener = "on_open" if (i == 0 or not d["onrec"]) else "on_reconnect"
